@@ -19,6 +19,8 @@ EXTRA = {  # seeded changes that are (also) caught by a different property's che
     "C09-4": ("C13", "tau2:draw_is_from_the_inverse_gamma_full_conditional (same mechanism as C13-1; since then C09 runs the Gibbs start-state traces itself)"),
     "C15-2": ("C01", "graph:values_equal_spec:update_targets (targeted update in non-topological order is an update-semantics defect; C15's check reads the sort order only)"),
 }
+# newest /repo commit each patch applies to (later `fix:` commits touch the same lines as some earlier seeded changes)
+BASES = json.load(open(os.path.join(SEEDED, "bases.json"))) if os.path.exists(os.path.join(SEEDED, "bases.json")) else {}
 rows = []
 for d in sorted(os.listdir(SEEDED)):
     p = os.path.join(SEEDED, d)
@@ -44,6 +46,10 @@ for d in sorted(os.listdir(SEEDED)):
         "detection": {"check": det.get("check", pid), "tier": "quick", "exit": det.get("exit"), "violation_keys": keys,
                       "how": "tools/detect_mutants.sh (patch applied in a scratch worktree, check run with VERIF_REPO)"},
     }
+    if BASES.get(d):
+        meta["patch_applies_to_repo_commit"] = BASES[d]
+    if os.path.exists(os.path.join(p, "patch_as_delivered.diff")):
+        meta["patch_rebased"] = "patch.diff is the delivered change re-based onto a later /repo commit (git apply -3, no conflicts); patch_as_delivered.diff is the original"
     if d in NOT_A_VIOLATION:
         meta["assessment"] = NOT_A_VIOLATION[d]
     if d in EXTRA:
